@@ -210,3 +210,15 @@ Fixpoint new_ids (ops : list op) (outs : list N) : list N :=
   | _ :: r, _ :: l => new_ids r l
   | _, _ => []
   end.
+
+(* a balanced block body: every Leave closes an Enter of the body itself *)
+Fixpoint bal (d : nat) (ops : list op) : bool :=
+  match ops with
+  | [] => Nat.eqb d 0
+  | Enter :: r => bal (S d) r
+  | Leave :: r => match d with O => false | S d' => bal d' r end
+  | _ :: r => bal d r
+  end.
+
+(* the name -> id binding the machine currently answers (0 = none) *)
+Definition vm_view (s : vm) (k : str) : N := match afind k (cur s) with Some v => vid v | None => 0 end.
